@@ -35,10 +35,12 @@ package allocator
 //@   requires a != nil && sk != nil
 //@   ensures (result == nil) == old(Sharable(a, svc, ip, ports, sk.sharing, sk.backend))
 //@   modifies fresh []string, fresh []interface{}
+//@   loop 1 binds otherSvc
 //@   loop 1 invariant otherSvcs == nil || fresh(otherSvcs)
 //@   loop 1 invariant forall o string :: o in otherSvcs ==> o in visited && o != svc
 //@   loop 1 invariant forall o string :: o in visited && o != svc ==> o in otherSvcs
 //@   loop 1 invariant forall o string :: o in visited ==> o in a.servicesOnIP[ip]
+//@   loop 2 binds port
 //@   loop 2 invariant forall j int :: 0 <= j && j < iter ==> (!(ports[j] in a.portsInUse[ip]) || a.portsInUse[ip][ports[j]] == svc)
 
 // ---- the allocator's representation invariant (C01, C11) ----
@@ -154,6 +156,7 @@ package allocator
 //@   ensures a.allocated[svc] == alloc
 //@   ensures forall s string :: s != svc ==> a.allocated[s] == old(a.allocated[s])
 //@   ensures [poolsSame] a.pools == old(a.pools) && (forall n string :: (n in a.pools.ByName) == old(n in a.pools.ByName) && a.pools.ByName[n] == old(a.pools.ByName[n]))
+//@   loop 1 binds ip
 //@   loop 1 invariant forall n string :: (n in a.pools.ByName) == old(n in a.pools.ByName) && a.pools.ByName[n] == old(a.pools.ByName[n])
 //@   ensures [dom] forall s string :: (s in a.allocated) == (s == svc || old(s in a.allocated))
 //@   loop 1 invariant forall s string :: (s in a.allocated) == (s == svc || old(s in a.allocated))
@@ -168,6 +171,7 @@ package allocator
 //@   loop 1 invariant SafeFor(a, svc, alloc)
 //@   loop 1 invariant InvPortsA(a, true, svc, alloc, iter, 0)
 //@   loop 1 invariant InvKeysA(a, true, svc, alloc, iter)
+//@   loop 2 binds port
 //@   loop 2 invariant 0 <= idx(1) && idx(1) < len(alloc.ips) && a.portsInUse[net.ipstr(ip)] != nil && net.ipstr(ip) in a.portsInUse
 //@   loop 2 invariant a.sharingKeyForIP[net.ipstr(ip)] == &alloc.key
 //@   loop 2 invariant InvPortsA(a, true, svc, alloc, idx(1), iter)
@@ -232,6 +236,7 @@ package allocator
 //@   check overflow
 //@   requires PoolCIDRsOK(p)
 //@   ensures [nonneg] result0 >= 0 && result1 >= 0 && result2 >= 0
+//@   loop 1 binds cidr
 //@   loop 1 invariant total >= 0 && ipv4 >= 0 && ipv6 >= 0
 //@   modifies fresh *ipaddr.Prefix, fresh *ipaddr.Cursor, fresh *ipaddr.Position, fresh []ipaddr.Prefix, gint("cursor.pos")
 // NoZeroAt: none of the three per-pool in-use maps keeps an entry with count 0 for address x ("len() is an accurate
@@ -240,6 +245,7 @@ package allocator
 //@     && ((x in a.poolIPV4InUse[pool]) ==> a.poolIPV4InUse[pool][x] != 0) && ((x in a.poolIPV6InUse[pool]) ==> a.poolIPV6InUse[pool][x] != 0)
 //@ func (*Allocator).Unassign
 //@   ensures [noZeroEntry] old(a.allocated[svc]) != nil ==> (let al0 := old(a.allocated[svc]) in forall k int :: 0 <= k && k < len(al0.ips) ==> NoZeroAt(a, al0.pool, net.ipstr(al0.ips[k])))
+//@   loop 1 binds ip
 //@   loop 1 invariant forall k int :: { al.ips[k] } 0 <= k && k < iter ==> NoZeroAt(a, al.pool, net.ipstr(al.ips[k]))
 //@   requires Inv(a) && a.countersChangedCallback != nil && PoolsOK(a.pools.ByName)
 //@   modifies map[string]*alloc, map[Port]string, map[string]bool, map[string]int, map[string]PoolCounters, fresh *ipaddr.Prefix, fresh *ipaddr.Cursor, fresh *ipaddr.Position, fresh []ipaddr.Prefix, gint("cursor.pos"), fresh []string, fresh []interface{}, $held
@@ -262,6 +268,7 @@ package allocator
 //@   loop 1 invariant InvSvc(a, true, svc, al, iter)
 //@   loop 1 invariant InvPorts(a, true, svc, al, iter, 0)
 //@   loop 1 invariant InvKeys(a, true, svc, al)
+//@   loop 2 binds port
 //@   loop 2 invariant 0 <= idx(1) && idx(1) < len(al.ips)
 //@   loop 2 invariant InvPorts(a, true, svc, al, idx(1), iter)
 // facts about the pending entry (pure, over the immutable record al)
@@ -347,8 +354,11 @@ package allocator
 //@   ensures result != nil ==> (exists n string :: n in pools && pools[n] == result) && AllInPool(result, ips)
 //@   ensures result == nil ==> (forall n string :: n in pools ==> !AllInPool(pools[n], ips))
 //@   modifies nothing
+//@   loop 1 binds p
 //@   loop 1 invariant forall n string :: n in visited ==> n in pools && !AllInPool(pools[n], ips)
+//@   loop 2 binds ip
 //@   loop 2 invariant p != nil && PoolCIDRsOK(p) && 0 <= cnt && cnt <= iter && ((cnt == iter) == (forall k int :: 0 <= k && k < iter ==> InPool(p, ips[k])))
+//@   loop 3 binds cidr
 //@   loop 3 invariant p != nil && PoolCIDRsOK(p) && 0 <= idx(2) && idx(2) < len(ips) && ip == ips[idx(2)]
 //@   loop 3 invariant forall c int :: 0 <= c && c < iter ==> !net.NetContains(*p.CIDR[c], ip)
 
@@ -364,6 +374,7 @@ package allocator
 //@   requires p != nil && svc != nil
 //@   ensures result == PoolAdmits(p, svc)
 //@   modifies nothing
+//@   loop 1 binds svcSelector
 //@   loop 1 invariant forall i int :: 0 <= i && i < iter ==> !p.ServiceAllocations.ServiceSelectors[i].Matches(labels.Set(svc.Labels))
 
 // ---- Assign ----
@@ -401,6 +412,7 @@ package allocator
 //@   ensures [complete] result != nil ==> old(AssignRefused(a, svcKey, svc, ips, ports, sharingKey, backendKey))
 //@   readonly when result != nil
 //@   ensures [poolsSame] a.pools == old(a.pools) && (forall n string :: (n in a.pools.ByName) == old(n in a.pools.ByName) && a.pools.ByName[n] == old(a.pools.ByName[n]))
+//@   loop 1 binds ip
 //@   loop 1 invariant sk != nil && fresh(sk) && sk.sharing == sharingKey && sk.backend == backendKey && pool != nil
 //@   loop 1 invariant forall k int :: 0 <= k && k < iter ==> Sharable(a, svcKey, net.ipstr(ips[k]), ports, sharingKey, backendKey)
 //@   loop 1 invariant [poh] forall x string, s string, p Port :: (s in a.servicesOnIP[x]) && HasPort(a.allocated[s], p) ==> (p in a.portsInUse[x]) && a.portsInUse[x][p] == s
@@ -470,6 +482,7 @@ package allocator
 //@   ensures [complete] result == nil ==> (forall n int :: 0 <= n && n < ipaddr.prefixSize(*cidr) ==>
 //@       !Usable(a, avoidBuggyIPs, svc, ports, sharingKey, backendKey, ipaddr.nthAddr(*cidr, n)))
 //@   modifies fresh *key, fresh []ipaddr.Prefix, fresh *ipaddr.Prefix, fresh *ipaddr.Cursor, fresh *ipaddr.Position, fresh []string, fresh []interface{}, gint("cursor.pos")
+//@   loop 1 binds pos
 //@   loop 1 invariant c != nil && fresh(c) && ipaddr.curNet(c) == *cidr && sk != nil && fresh(sk) && sk.sharing == sharingKey && sk.backend == backendKey
 //@   loop 1 invariant pos != nil ==> 0 <= gint("cursor.pos", c) && gint("cursor.pos", c) < ipaddr.prefixSize(*cidr) && pos.IP == ipaddr.nthAddr(*cidr, gint("cursor.pos", c))
 //@   loop 1 invariant pos == nil ==> gint("cursor.pos", c) + 1 >= ipaddr.prefixSize(*cidr) && 0 <= gint("cursor.pos", c)
@@ -510,6 +523,7 @@ package allocator
 //@   ensures [complete4] result.IPV4 == nil ==> !FreeIn(a, pool, true, svcKey, ports, sharingKey, backendKey)
 //@   ensures [complete6] result.IPV6 == nil ==> !FreeIn(a, pool, false, svcKey, ports, sharingKey, backendKey)
 //@   modifies fresh *Allocation, fresh *key, fresh []ipaddr.Prefix, fresh *ipaddr.Prefix, fresh *ipaddr.Cursor, fresh *ipaddr.Position, fresh []string, fresh []interface{}, gint("cursor.pos")
+//@   loop 1 binds cidr
 //@   loop 1 invariant allocation != nil && fresh(allocation) && allocation.PoolName == pool.Name
 //@   loop 1 invariant allocation.IPV4 != nil ==> FoundIn(a, pool, true, svcKey, ports, sharingKey, backendKey, allocation.IPV4)
 //@   loop 1 invariant allocation.IPV6 != nil ==> FoundIn(a, pool, false, svcKey, ports, sharingKey, backendKey, allocation.IPV6)
@@ -565,6 +579,7 @@ package allocator
 //@   ensures [first] result1 == nil ==> (exists i int :: 0 <= i && i < len(pools) && FromPool(a, result0, pools[i], svcKey, ports, sharingKey, backendKey)
 //@       && FirstChoice(a, pools, i, Full(result0, serviceIPFamily), ite(Prim4(svc), result0.IPV4, result0.IPV6) != nil, serviceIPFamily, Prim4(svc), svcKey, ports, sharingKey, backendKey))
 //@   modifies fresh *Allocation, fresh *key, fresh []ipaddr.Prefix, fresh *ipaddr.Prefix, fresh *ipaddr.Cursor, fresh *ipaddr.Position, fresh []string, fresh []interface{}, gint("cursor.pos")
+//@   loop 1 binds pool
 //@   loop 1 invariant serviceIPFamilyPolicy == ipPolicyForServiceSpec(svc) && svc == old(svc)
 //@   loop 1 invariant (primaryIPFamily == ipfamily.IPv4) == Prim4(svc)
 //@   loop 1 invariant primaryAllocationCandidate != nil ==> (exists i int :: 0 <= i && i < iter && FromPool(a, primaryAllocationCandidate, pools[i], svcKey, ports, sharingKey, backendKey)
@@ -700,7 +715,9 @@ package allocator
 //@   ensures svc == nil ==> result == nil
 //@   ensures [pinned] forall i int :: 0 <= i && i < len(result) ==> Pinned(a, svc, result[i])
 //@   ensures [complete] svc != nil ==> (forall q *config.Pool :: PinnedFor(a, svc, q) ==> (q in result))
+//@   loop 1 binds nsPoolName
 //@   loop 1 invariant forall k int :: 0 <= k && k < iter && Wanted(a, svc, a.pools.ByNamespace[svc.Namespace][k]) ==> (a.pools.ByName[a.pools.ByNamespace[svc.Namespace][k]] in pools)
+//@   loop 2 binds svcPoolName
 //@   loop 2 invariant forall k int :: IndexedNS(a, svc, k) && Wanted(a, svc, a.pools.ByNamespace[svc.Namespace][k]) ==> (a.pools.ByName[a.pools.ByNamespace[svc.Namespace][k]] in pools)
 //@   loop 2 invariant forall k int :: 0 <= k && k < iter && Wanted(a, svc, a.pools.ByServiceSelector[k]) ==> (a.pools.ByName[a.pools.ByServiceSelector[k]] in pools)
 //@   ensures [sorted] forall x int, y int :: 0 <= x && x < y && y < len(result) ==> !PrioBefore(result[y], result[x])
@@ -765,6 +782,7 @@ package allocator
 //@       (forall i int :: 0 <= i && i < len(allPools) ==> (let q := allPools[i] in !old(CanSatisfy(a, q, serviceIPFamily, ipPolicyForServiceSpec(svc), svcKey, ports, sharingKey, backendKey))))
 //@   assert after allocateFromPools#2: [unpinnedCant] ret1 != nil && old(PoolsDisjoint(a.pools.ByName)) && FamPolicyOK(serviceIPFamily, old(ipPolicyForServiceSpec(svc))) ==>
 //@       (forall n string :: (n in a.pools.ByName) && Unpinned(a.pools.ByName[n]) ==> !old(CanSatisfy(a, a.pools.ByName[n], serviceIPFamily, ipPolicyForServiceSpec(svc), svcKey, ports, sharingKey, backendKey)))
+//@   loop 1 binds pool
 //@   loop 1 invariant (allPools == nil || fresh(allPools)) && (forall i int :: 0 <= i && i < len(allPools) ==>
 //@       allPools[i] != nil && allPools[i].AutoAssign && allPools[i].ServiceAllocations == nil && (allPools[i].Name in a.pools.ByName) && a.pools.ByName[allPools[i].Name] == allPools[i] && PoolCIDRsOK(allPools[i]))
 //@   loop 1 invariant forall n string :: (n in visited) && Unpinned(a.pools.ByName[n]) ==> (a.pools.ByName[n] in allPools)
@@ -870,8 +888,11 @@ package allocator
 //@   ensures [sameIPs] forall s string :: old(a.allocated[s]) != nil ==> sameSlice(old(a.allocated[s]).ips, old(a.allocated[s].ips))
 //@   ensures [home] forall s string :: a.allocated[s] != nil ==> Homed(pools.ByName, a.allocated[s])
 //@   modifies map[string]*alloc, map[Port]string, map[string]bool, map[string]int, map[string]PoolCounters, alloc.pool, a.pools, fresh *ipaddr.Prefix, fresh *ipaddr.Cursor, fresh *ipaddr.Position, fresh []ipaddr.Prefix, gint("cursor.pos"), fresh []string, fresh []interface{}, $held
+//@   loop 1 binds n
 //@   loop 1 invariant lockframe(a.countersMutex)
+//@   loop 2 binds alloc
 //@   loop 2 invariant lockframe(a.countersMutex)
+//@   loop 3 binds p
 //@   loop 3 invariant lockframe(a.countersMutex)
 //@   loop 1 invariant lockstate(a.countersMutex) == 2 && Inv(a) && InvD(a) && a.pools == old(a.pools) && (forall s string :: a.allocated[s] == old(a.allocated[s]))
 //@   loop 2 invariant lockstate(a.countersMutex) == 0 && Inv(a) && InvD(a) && a.pools == pools
